@@ -114,6 +114,12 @@ fn format_extraction<TCompilationProfile: CompilationProfile>(
         let new_line_behavior = token.item.line_behavior;
         let indent_change = token.item.indent_change;
 
+        if !new_line_behavior.should_keep() {
+            // A removed token neither starts nor ends a line, and leaves the
+            // spacing between its neighbors up to them.
+            continue;
+        }
+
         if let IndentChange::Dedent = indent_change {
             indent -= 1;
         }
@@ -125,9 +131,7 @@ fn format_extraction<TCompilationProfile: CompilationProfile>(
             output.push(' ');
         }
 
-        if new_line_behavior.should_keep() {
-            output.push_str(content);
-        }
+        output.push_str(content);
 
         last_line_behavior = new_line_behavior;
 
